@@ -29,6 +29,8 @@ Deep == { Arr(<<Oa(Oa(N1)), Oa(N2)>>),
           Oa(Oa(Oa(N1))),
           Arr(<<Oab(N1, N2), Oab(N2, N1), Ob(N1)>>),
           Arr(<<O0>>), Oa(O0), Arr(<<O0, Oa(N1)>>), Arr(<<A0, Arr(<<N1>>)>>),
+          \* arrays directly inside arrays with objects below; an array of arrays behind a single-valued step
+          Arr(<<Arr(<<Oa(N1), Oa(N2)>>), Oa(N3)>>), Oa(Arr(<<Arr(<<N1, N2>>), Arr(<<N3>>)>>)),
           \* members that are present with the value null (present is not the same as non-nil)
           Oab(Null, N1), Arr(<<Oab(Null, Null), Oa(Null)>>),
           \* keys that differ between levels: a stale/aliased key buffer of an outer object shows
@@ -42,7 +44,7 @@ InnerT == IF DocSet = "small" THEN {N1, A0, Arr(<<N1, N2>>), Oa(N1), Oab(N2, N1)
           ELSE {N1, Sa, A0, O0, Arr(<<N1, N2>>), Oa(N1), Oab(N2, N1), Oa(Arr(<<N1, N2>>))}
 DocsTriples == {N1} \cup {Arr(s) : s \in SeqsUpTo(InnerT, 2)} \cup {Oab(x, y) : x \in InnerT, y \in InnerT} \cup Deep
 DocsSpell == IF Spellings \in {"all", "all64"} THEN {Obj(<<KV(ka, N1), KV(kE, Oa(N2))>>), Arr(<<Obj(<<KV(kE, N1)>>)>>)} ELSE {}
-Docs == (IF Scope = "pairs" THEN DocsPairs ELSE DocsTriples) \cup DocsSpell
+Docs == IF DocSet = "tiny" THEN Deep ELSE (IF Scope \in {"pairs", "extras"} THEN DocsPairs ELSE DocsTriples) \cup DocsSpell
 
 Pa == Cur(<<Nm(ka)>>)   Pb == Cur(<<Nm(kb)>>)
 Queries == {
@@ -73,6 +75,17 @@ QueriesQ == {
   And(Exist(Pa), Exist(Pb)), Or(Cmp("!=", Pa, Root(<<Nm(kb)>>)), Exist(Pb)),
   NotP(Root(<<>>)), And(Exist(Root(<<>>)), Exist(Pa)),
   Cmp(">", Path("@", <<>>, <<AF(Fn_gcnt)>>), Lit(N1)), Cmp("==", Path("@", <<Nm(ka)>>, <<FF(Fn_fid)>>), Lit(N1)) }
+\* special-purpose queries (scope "extras": each with a few plain steps around it)
+QueriesX == {
+  \* a bare `@` under a logical operator; an aggregate that fails / whose path holds a nested filter with a `$` operand;
+  \* a probe function in the right operand of && (it looks at the document during the call)
+  And(Exist(Cur(<<>>)), Exist(Pa)), Or(Exist(Cur(<<>>)), Exist(Pb)),
+  Cmp(">", Path("@", <<>>, <<AF(Fn_gerr)>>), Lit(N1)),
+  Cmp(">", Path("@", <<Flt(Cmp("!=", Cur(<<>>), Root(<<Nm(kb)>>)))>>, <<AF(Fn_gcnt)>>), Lit(Num(0))),
+  And(Exist(Pa), Exist(Path("@", <<Nm(kb)>>, <<FF(Fn_fprobe)>>))),
+  Cmp("<", Pa, Path("$", <<Nm(kb)>>, <<FF(Fn_fid)>>)),
+  \* a `$` operand inside a filter nested in an `@` operand (the root must stay the document)
+  Exist(Cur(<<Flt(Cmp("==", Cur(<<>>), Root(<<Nm(kb)>>)))>>)), Exist(Cur(<<Nm(ka), Flt(Cmp("!=", Cur(<<>>), Root(<<Nm(ka), Un(<<Idx(0)>>)>>)))>>)) }
 QueriesT == { Exist(Pa), Cmp("==", Pa, Lit(N1)), Cmp("<", Pa, Lit(N2)), Exist(Cur(<<>>)),
               Cmp(">", Path("@", <<>>, <<AF(Fn_gcnt)>>), Lit(N1)), Cmp("==", Path("@", <<Nm(ka)>>, <<FF(Fn_fid)>>), Lit(N1)) }
 
@@ -88,13 +101,14 @@ SigmaTriples == {Nm(ka), Nm(kb), Wild, Multi(<<Nm(ka), Nm(kb)>>), Multi(<<Wild, 
                 \cup {Flt(q) : q \in QueriesT}
 \* non-ASCII key for the spelling checks
 SigmaSpell == IF Spellings \in {"all", "all64"} THEN {Nm(kE), Multi(<<Nm(kE), Nm(ka)>>)} ELSE {}
-Sigma == (IF Scope = "pairs" THEN SigmaPairs ELSE SigmaTriples) \cup SigmaSpell
+SigmaExtras == {Nm(ka), Nm(kb), Wild, Un(<<Idx(0)>>), Multi(<<Nm(ka), Nm(kb)>>)} \cup {Flt(q) : q \in QueriesX}
+Sigma == (IF Scope = "pairs" THEN SigmaPairs ELSE IF Scope = "extras" THEN SigmaExtras ELSE SigmaTriples) \cup SigmaSpell
 
 F1 == {FF(Fn_f1), FF(Fn_fodd), FF(Fn_ferr), AF(Fn_g1), AF(Fn_gerr)}
 F2 == {FF(Fn_f2), AF(Fn_g2), FF(Fn_f3)}
-FSeqsSmall == { <<FF(Fn_f1)>>, <<AF(Fn_g1)>>, <<FF(Fn_ferr)>>, <<AF(Fn_gerr)>>,
+FSeqsSmall == { <<FF(Fn_f1)>>, <<AF(Fn_g1)>>, <<FF(Fn_ferr)>>, <<AF(Fn_gerr)>>, <<FF(Fn_fodd), FF(Fn_ferr)>>,
                 <<FF(Fn_fodd), FF(Fn_f2), AF(Fn_g2)>>, <<AF(Fn_g1), AF(Fn_g2)>>, <<AF(Fn_g1), FF(Fn_f2)>> }
-FSeqsFull == {<<x>> : x \in F1} \cup {<<x, y>> : x \in F1, y \in F2}
+FSeqsFull == {<<FF(Fn_fodd), FF(Fn_ferr)>>} \cup {<<x>> : x \in F1} \cup {<<x, y>> : x \in F1, y \in F2}
          \cup {<<FF(Fn_f1), AF(Fn_g1), FF(Fn_f2)>>, <<AF(Fn_g1), AF(Fn_g2), FF(Fn_f3)>>, <<FF(Fn_fodd), FF(Fn_f2), AF(Fn_g2)>>}
 FSeqs == IF FuncSet = "small" THEN FSeqsSmall ELSE FSeqsFull
 
@@ -102,6 +116,7 @@ AllSp == [q : {39, 34}, brk : BOOLEAN, spc : BOOLEAN, omit : BOOLEAN, plus : BOO
 RECURSIVE SetToSeqSp(_)
 SetToSeqSp(S) == IF S = {} THEN <<>> ELSE LET x == CHOOSE y \in S : TRUE IN <<x>> \o SetToSeqSp(S \ {x})
 SpList == IF Spellings = "canon" THEN <<Canon>>
+          ELSE IF Spellings = "omit" THEN <<Canon, [Canon EXCEPT !.omit = TRUE], [Canon EXCEPT !.omit = TRUE, !.brk = TRUE]>>
           ELSE IF Spellings = "all64" THEN <<Canon>> \o SetToSeqSp(AllSp \ {Canon})
           ELSE <<Canon,
                  [Canon EXCEPT !.spc = TRUE], [Canon EXCEPT !.q = 34], [Canon EXCEPT !.brk = TRUE],
